@@ -442,7 +442,7 @@ partial def loop (hin : IO.FS.Stream) (hout : IO.FS.Stream) : IO Unit := do
   if line.isEmpty then return ()
   let l := String.ofList (line.toList.reverse.dropWhile (fun c => c = '\n' || c = '\r')).reverse
   hout.putStrLn (handle l)
-  if l = "flush" then hout.flush
+  hout.flush       -- one answer per line, visible at once: the harness times each operation
   loop hin hout
 
 def main : IO Unit := do
